@@ -166,6 +166,11 @@ def mk_bpe_vocab(rng, name, style):
     ctrl = [b"<|bos|>", b"<|eot|>"] + ([b"<~ x>"] if style != "std" else [])
     # special tokens that are prefixes of each other: which one wins depends on the order in Values
     ctrl = ([b"<|eot|>!"] + ctrl) if style in ("safe105", "simple") else (ctrl + [b"<|bos|>!"])
+    # special tokens whose literal contains characters the pre-processing rewrites: inner / leading / trailing space, tab,
+    # and (style overlap) the image of the space under the byte map (non-ASCII: the known 105/106-style finding class)
+    ctrl = ctrl + [b"<end of turn>"] + ([b" <lead>", b"<trail> "] if style in ("std", "simple", "overlap") else [b"<tool  call>", b"<a\tb>"])
+    if style == "overlap":
+        ctrl.append("<|Ġ|>".encode())
     bos = len(values) + ctrl.index(b"<|bos|>")
     for c in ctrl:
         values.append(c)
@@ -259,7 +264,10 @@ def mk_spm_vocab(rng, name, style):
             values.append(t)
             types.append(1)
             scores.append(-3)
-    for t in ([b"<start_of_turn>", b"</s>!"] if style != "normal-first" else [b"<s>s", b"<start_of_turn>"]):
+    # control tokens whose literal contains spaces (inner, leading, trailing, double) or U+2581 itself: Encode splits on the
+    # special literals FIRST (raw text) and escapes spaces to U+2581 only inside the remaining text fragments
+    spaced = ([b"<end of turn>", b" <lead>", b"<trail> "] if style != "normal-first" else [b"<tool  call>", b"<a b c>", ("<u" + SEP + "v>").encode()])
+    for t in ([b"<start_of_turn>", b"</s>!"] if style != "normal-first" else [b"<s>s", b"<start_of_turn>"]) + spaced:
         values.append(t)
         types.append(3)
         scores.append(0)
@@ -521,6 +529,19 @@ def gen(ctx):
                 if i != j and len(fixed) < 8:
                     fixed.append([sps[i], sps[j], sps[i], sps[j]])      # alternating
                     fixed.append([sps[j], sps[j], sps[i]])              # lower-index special right of a higher-index one
+        # every special token whose literal contains a space / tab / U+2581, embedded in text that itself has spaces around it
+        spaced = [x for x in sps if b" " in x or b"\t" in x or SEP.encode() in x]
+        nfix2 = 0
+        for x in spaced:
+            fixed.append([x])
+            fixed.append([x, x])
+            nfix2 += 2
+            others = [y for y in sps if y != x]
+            if others:
+                fixed.append([rng.choice(others), x])
+                nfix2 += 1
+        spaced_parts = [["say ", " now"], ["a b ", " c d"], ["", " x"], ["x ", ""], [" ", " "], ["a", "b"]]
+        nfixed0 = len(fixed) - nfix2
         for k in range(len(fixed) + (18 if q else 250)):
             if k < len(fixed):
                 seq = fixed[k]
@@ -531,8 +552,11 @@ def gen(ctx):
             for _ in range(len(seq) + 1):
                 r = rng.random()
                 parts.append("" if r < 0.3 else (rnd_text(rng, alpha, 2) if alpha and r < 0.65 else rnd_text(rng, None, 2)))
-            if k < len(fixed) and k % 2 == 0:
+            if k < nfixed0 and k % 2 == 0:
                 parts = ["hi", "yo", "", "hello", "x"][:len(seq) + 1]
+            elif nfixed0 <= k < len(fixed):
+                sp_ = spaced_parts[k % len(spaced_parts)]
+                parts = ([sp_[0]] + [" and "] * (len(seq) - 1) + [sp_[1]])
             g = "m%d" % len(cases)
             whole = b""
             for n, pt in enumerate(parts):
